@@ -296,13 +296,18 @@ func hasClientECS(req *dns.Msg) bool {
 	if req == nil {
 		return false
 	}
-	opt := req.IsEdns0()
-	if opt == nil {
-		return false
-	}
-	for _, option := range opt.Option {
-		if _, ok := option.(*dns.EDNS0_SUBNET); ok {
-			return true
+	// Every OPT record counts, not only the one IsEdns0 selects: the marker
+	// records what the client sent, and a malformed multi-OPT query must not
+	// slip an audience-scoped request past the shared-denial bypass.
+	for _, rr := range req.Extra {
+		opt, ok := rr.(*dns.OPT)
+		if !ok {
+			continue
+		}
+		for _, option := range opt.Option {
+			if _, ok := option.(*dns.EDNS0_SUBNET); ok {
+				return true
+			}
 		}
 	}
 	return false
